@@ -323,6 +323,66 @@ def build_sequence(builds, on_step=None):
     return fails
 
 
+def unreadable_index(mods_a, mods_b, how):
+    """an index that exists but cannot be read back (no permission, or bytes that are no text) is not "no index": the build
+    either merges into it or reports the writer's error and leaves it alone - it never starts from scratch and writes over it.
+    Returns the list of failures."""
+    import pysmi.writer.localfile as lf
+    from pysmi import error
+    from pysmi.compiler import MibCompiler, MibStatus
+    from pysmi.codegen.jsondoc import JsonCodeGen
+    d = scratch_dir()
+    fails = []
+
+    def st(mods):
+        return {m['name']: MibStatus('compiled').setOptions(identity=m['identity'], enterprise=m['enterprise'], compliance=m['compliance'], oids=m['oids'])
+                for m in mods}
+    try:
+        comp = MibCompiler(None, JsonCodeGen(), lf.FileWriter(d).setOptions(suffix='.json'))
+        comp.buildIndex(st(mods_a))
+        path = os.path.join(d, 'index.json')
+        if how == 'undecodable':
+            with open(path, 'rb') as f:
+                raw = f.read()
+            with open(path, 'wb') as f:
+                f.write(raw.replace(b'{', b'{ "\xff\xfe": 1, ', 1))
+        with open(path, 'rb') as f:
+            before = f.read()
+        real_open = open
+
+        def no_permission(name, *a, **kw):
+            if how == 'no-permission' and os.path.abspath(str(name)) == os.path.abspath(path) and not (a and 'w' in str(a[0])):
+                raise IOError(13, 'Permission denied', str(name))
+            return real_open(name, *a, **kw)
+        lf.open = no_permission
+        try:
+            try:
+                comp.buildIndex(st(mods_b))
+                outcome = 'returned'
+            except error.PySmiError:
+                outcome = 'writer error'
+            except BaseException as e:
+                outcome = type(e).__name__
+        finally:
+            del lf.open
+        with open(path, 'rb') as f:
+            after = f.read()
+        if outcome not in ('returned', 'writer error'):
+            fails.append('unreadable-index: buildIndex over an index that is %s raised %s' % (how, outcome))
+        if after != before:
+            if outcome == 'writer error':
+                fails.append('unreadable-index: buildIndex reported an error and changed the index all the same')
+            else:
+                old = json.loads(before.replace(b'"\xff\xfe": 1, ', b'').decode())
+                try:
+                    fails += oracle(mods_b, json.dumps(old), after.decode())
+                except Exception as e:
+                    fails.append('unreadable-index: the index written over one that is %s cannot be judged: %s' % (how, type(e).__name__))
+    finally:
+        shutil.rmtree(d, ignore_errors=True)
+    return fails
+
+
 def run_buildindex(ctx):
     """The same through MibCompiler.buildIndex with a real FileWriter (read-back of the old index): one compiler, and two
     or three compiler objects taking turns on the same destination directory."""
@@ -333,6 +393,15 @@ def run_buildindex(ctx):
             for fl in fails[:3]:
                 ctx.res.oracle_failures.append({'key': fl.split(':')[0], 'what': 'buildIndex (%d compiler objects taking turns): %s' % (n_comp, fl),
                                                 'input': {'builds': builds}})
+    for k in range(2 if ctx.tier == 'quick' else 20):
+        for how in ('no-permission', 'undecodable'):
+            a, b = gen_case(ctx.rng, ctx.tier), gen_case(ctx.rng, ctx.tier)
+            ctx.res.case(('unreadable-index', how, json.dumps(a, sort_keys=True), json.dumps(b, sort_keys=True)), True)
+            ctx.res.count('unreadable-index:' + how)
+            for fl in unreadable_index(a, b, how)[:2]:
+                ctx.res.oracle_failures.append({'key': 'unreadable-index' if fl.startswith('unreadable-index') else fl.split(':')[0],
+                                                'what': fl if fl.startswith('unreadable-index') else 'over an index that is %s: %s' % (how, fl),
+                                                'input': {'unreadable': [a, b, how]}})
 
 
 def search(ctx):
@@ -365,6 +434,9 @@ def replay(payload):
         key = payload.get('key')
         if key:
             fails = [f for f in fails if 'real-' + f.split(':')[0] == key] or []
+        return {'fails': bool(fails), 'what': fails[:5]}
+    if 'unreadable' in inp:
+        fails = unreadable_index(*inp['unreadable'])
         return {'fails': bool(fails), 'what': fails[:5]}
     if 'builds' in inp:
         fails = build_sequence([tuple(b) for b in inp['builds']])
